@@ -128,46 +128,58 @@ impl RefDual {
     pub fn neg(&self) -> RefDual {
         RefDual { val: chain_c(&self.val, -self.val.v, -1.0, 0.0), mag: self.mag, mask: self.mask }
     }
-    /// generic unary rule from (f, f', f'') at the value; magnitude includes the first-order
-    /// conditioning of f and f' w.r.t. the rounding already present in the argument.
-    pub fn unary(&self, f0: f64, f1: f64, f2: f64) -> RefDual {
+    /// generic unary rule from (f, f1, f2, f3) = the function and its first three derivatives at the
+    /// value. The magnitude copy bounds the effect of the rounding already present in the argument
+    /// (size ~ eps * mag.v) to SECOND order, so that points where f1 or f2 vanish (x^2, x^3 at an
+    /// argument that cancelled to zero) still get a non-zero scale.
+    pub fn unary3(&self, f0: f64, f1: f64, f2: f64, f3: f64) -> RefDual {
         let val = chain_c(&self.val, f0, f1, f2);
-        let mut mag = chain_c(&self.mag, f0.abs() + f1.abs() * self.mag.v, f1.abs(), f2.abs());
+        let mv = self.mag.v;
+        let a1 = f1.abs() + f2.abs() * mv + 0.5 * f3.abs() * mv * mv;
+        let a2 = f2.abs() + f3.abs() * mv;
+        let mut mag = Comp::zero();
+        mag.v = f0.abs() + f1.abs() * mv + 0.5 * f2.abs() * mv * mv;
         for i in 0..N {
-            mag.g[i] += f2.abs() * self.mag.v * self.val.g[i].abs();
+            mag.g[i] = a1 * self.mag.g[i];
+            for j in 0..N {
+                mag.h[i][j] = a1 * self.mag.h[i][j] + a2 * self.mag.g[i] * self.mag.g[j];
+            }
         }
         RefDual { val, mag, mask: self.mask }
     }
+    pub fn unary(&self, f0: f64, f1: f64, f2: f64) -> RefDual {
+        self.unary3(f0, f1, f2, 0.0)
+    }
     pub fn powf(&self, p: f64) -> RefDual {
         let x = self.val.v;
-        self.unary(x.powf(p), p * x.powf(p - 1.0), p * (p - 1.0) * x.powf(p - 2.0))
+        self.unary3(x.powf(p), p * x.powf(p - 1.0), p * (p - 1.0) * x.powf(p - 2.0), p * (p - 1.0) * (p - 2.0) * x.powf(p - 3.0))
     }
     pub fn recip(&self) -> RefDual {
         let x = self.val.v;
-        self.unary(1.0 / x, -1.0 / (x * x), 2.0 / (x * x * x))
+        self.unary3(1.0 / x, -1.0 / (x * x), 2.0 / (x * x * x), -6.0 / (x * x * x * x))
     }
     pub fn div(&self, o: &RefDual) -> RefDual {
         self.mul(&o.recip())
     }
     pub fn exp(&self) -> RefDual {
         let e = self.val.v.exp();
-        self.unary(e, e, e)
+        self.unary3(e, e, e, e)
     }
     pub fn ln(&self) -> RefDual {
         let x = self.val.v;
-        self.unary(x.ln(), 1.0 / x, -1.0 / (x * x))
+        self.unary3(x.ln(), 1.0 / x, -1.0 / (x * x), 2.0 / (x * x * x))
     }
     pub fn norm_cdf(&self) -> RefDual {
         let x = self.val.v;
         let pdf = phi_pdf(x);
-        self.unary(phi_cdf(x), pdf, -x * pdf)
+        self.unary3(phi_cdf(x), pdf, -x * pdf, (x * x - 1.0) * pdf)
     }
     pub fn inv_norm_cdf(&self) -> RefDual {
         let u = self.val.v;
         let y = phi_inv(u);
         let d1 = 1.0 / phi_pdf(y);
-        // y'' = y * (y')^2
-        self.unary(y, d1, y * d1 * d1)
+        // second derivative y (y1)^2 ; third derivative (y1)^3 (1 + 2 y^2)
+        self.unary3(y, d1, y * d1 * d1, d1 * d1 * d1 * (1.0 + 2.0 * y * y))
     }
     pub fn abs(&self) -> RefDual {
         if self.val.v >= 0.0 {
